@@ -4,6 +4,8 @@ Decides the iteration-boundary protocol: loop shape of every search algorithm,
 the resources_left quantifier, the counter/limit discipline of the three
 counting conditions, the observer wiring that feeds the counters, and that nothing
 before the counter reset (before_search_start) is a call on or with the algorithm object.
+C17.charged: a result the executor makes up itself (timeout, crashed worker) still carries the number of
+statements that were started, or the statement budget never sees them.
 Wall-clock / memory conditions are value-level and not decided.
 """
 
@@ -176,6 +178,8 @@ def check(ctx) -> None:
         ctx.check("C17.reset-first", calls_[0], first_ and len(calls_) == 1, f"{qn_}: before_search_start() is preceded by a call that can execute tests or run hooks, is nested in a branch, or is called more than once: test executions made before it (the initial population) are forgotten when the counters are reset, so the search starts its iterations with the budget already spent", what=f"{qn_}: budgets reset before anything runs", stmt=f"[{qn_}]")
     ctx.rule("C17.budgets", "ABSINT: get_stopping_conditions creates one condition per configured budget also when budgets carry equal numbers; add_observer attaches a second observer of the same class", floor=5)
     _budgets(ctx, repo)
+    ctx.rule("C17.charged", "MUST-PASS: a result the executor makes up (timeout=True) gets its num_executed_statements assigned, or passes through _after_test_case_execution, before it leaves the function", floor=3)
+    _charged(ctx, repo)
     ctx.rule("C17.resources", "resources_left() is `all(not sc.is_fulfilled() for sc in self._stopping_conditions)` (universal, unfiltered)", floor=1)
     ctx.rule("C17.counter", "counting conditions: is_fulfilled is counter >= limit; the counter is incremented only and unconditionally in its designated hook and reset in before_search_start", floor=3 * 4)
     ctx.rule("C17.wiring", "every stopping condition handed to the strategy is registered as search observer, and as executor observer when it observes execution; counting conditions declare observes_execution=True", floor=5)
@@ -507,3 +511,84 @@ def _ancestors(n):
 
 def _contains(root, node):
     return any(x is node for x in ast.walk(root))
+
+
+def _charged(ctx, repo) -> None:
+    """The statement budget is charged for every execution: a result that the executor makes up itself (timeout,
+    crashed worker, import problem) stands for an execution that started statements, so before it leaves the function
+    its num_executed_statements is assigned or it passes through _after_test_case_execution (where the remote budget
+    observer stores its count).  A result handed over through a queue is followed to the function that takes it out."""
+    n = 0
+
+    def is_make(c):
+        return isinstance(c, ast.Call) and last_attr(c) == "ExecutionResult" and any(k.arg == "timeout" and isinstance(k.value, ast.Constant) and k.value.value is True for k in c.keywords)
+
+    def stmt_of(x):
+        while not isinstance(x, ast.stmt):
+            x = parent(x)
+        return x
+
+    def leaks(fn, st, var, put_charges):
+        cfg = CFG(fn)
+        here = cfg.nodes_of(st)
+        if not here:
+            raise AnalysisError(f"C17.charged: no CFG node for `{norm(st)}`")
+        if isinstance(st, ast.Return) or var is None:
+            return True
+
+        def charges(node):
+            s = node.stmt
+            if s is None or node.kind != "stmt" or isinstance(s, (ast.If, ast.For, ast.While, ast.With, ast.Try, ast.Match, ast.FunctionDef, ast.ClassDef)):
+                return False  # headers / exits of compound statements stand for the whole statement
+            for x in ast.walk(s):
+                if isinstance(x, (ast.Assign, ast.AugAssign)):
+                    tg = x.targets if isinstance(x, ast.Assign) else [x.target]
+                    if any(isinstance(t, ast.Attribute) and t.attr == "num_executed_statements" and norm(t.value) == var for t in tg):
+                        return True
+                if isinstance(x, ast.Call) and last_attr(x) == "_after_test_case_execution" and any(norm(a) == var for a in x.args):
+                    return True
+                if put_charges and isinstance(x, ast.Call) and last_attr(x) == "put" and any(norm(a) == var for a in x.args):
+                    return True
+            return False
+
+        charging = {nd.id for nd in cfg.nodes if nd.stmt is not None and nd.id not in here and charges(nd)}
+        # only results with timeout == True are followed: the false edge of `if <var>.timeout` is not theirs
+        tests = {nd.id for nd in cfg.nodes if nd.kind == "test" and isinstance(nd.stmt, ast.If) and norm(nd.stmt.test) == f"{var}.timeout"}
+        start = [b for h in here for b, lab in cfg.succ[h] if lab != "exc"]
+        return cfg.path(start, [cfg.exit], avoid_nodes=charging, labels_excluded=("exc",), avoid_edges=lambda s_, d_, lab: s_ in tests and lab == "false") is not None
+
+    for modname in ("pynguin.testcase.execution", "pynguin.testcase.subprocess_executor"):
+        fns = list(repo.all_functions(modname))
+        # consumers: results taken out of a queue
+        consumer_ok = False
+        for mod, qn, fn in fns:
+            for st in own_nodes(fn):
+                if isinstance(st, ast.Assign) and len(st.targets) == 1 and isinstance(st.value, ast.Call) and last_attr(st.value) == "get" and "queue" in norm(st.value.func).lower():
+                    ctx.analysed(fn)
+                    leak = leaks(fn, st, norm(st.targets[0]), False)
+                    n += 1
+                    consumer_ok = consumer_ok or not leak
+                    ctx.check("C17.charged", st, not leak, f"{mod.name}:{qn}: a result taken from the queue with timeout == True (made up by the executing thread) reaches the budget observers with num_executed_statements == 0", what=f"{qn}: timed-out results from the queue carry the statement count", stmt=f"[{qn}] {norm(st)[:60]}")
+        for mod, qn, fn in fns:
+            makes = [c for c in own_nodes(fn) if is_make(c)]
+            if not makes:
+                continue
+            ctx.analysed(fn)
+            for mk in makes:
+                st = stmt_of(mk)
+                var = norm(st.targets[0]) if isinstance(st, ast.Assign) and len(st.targets) == 1 else None
+                leak = leaks(fn, st, var, consumer_ok)
+                n += 1
+                anc = parent(st)
+                where = "body"
+                while anc is not None and anc is not fn:
+                    if isinstance(anc, ast.ExceptHandler):
+                        where = f"except {norm(anc.type) if anc.type is not None else ''}"
+                        break
+                    if isinstance(anc, ast.If):
+                        where = f"if {norm(anc.test)[:40]}"
+                        break
+                    anc = parent(anc)
+                ctx.check("C17.charged", st, not leak, f"{mod.name}:{qn}: the substitute result `{norm(st)[:70]}` reaches the budget observers with num_executed_statements == 0: the statements the test case executed before it timed out (crashed) are not charged to the statement-execution budget, so iterations go on after the budget has really been reached", what=f"{qn}: substitute result carries the statement count", stmt=f"[{qn}] under `{where}`: {norm(st)[:60]}")
+    if n < 3:
+        raise AnalysisError(f"C17.charged: only {n} substitute results found (confirmed by reading: 4)")
